@@ -80,7 +80,7 @@ func (c02) Gen(tier string, seed int64, emit func([]Ev)) {
 					d[i] = 0xab
 				}
 			}
-			emit([]Ev{{"op": "setpayload", "before": B(p[:]), "data": B(d), "kind": kind}})
+			emit([]Ev{{"op": "setpayload", "before": B(p[:]), "data": B(d), "kind": kind, "chain": false}})
 		}
 		// SetPayload applied repeatedly to the same packet: each result is again a well-formed packet
 		if kind != "af-only" && (n%2 == 0 || room == 0) {
@@ -139,7 +139,7 @@ func (c02) GenRows(rows []Ev, tier string, seed int64, emit func([]Ev)) {
 		if GB(row["pkt"])[3]&0x20 == 0 {
 			kind = "payload-only"
 		}
-		emit([]Ev{{"op": "setpayload", "before": row["pkt"], "data": row["data"], "kind": kind}})
+		emit([]Ev{{"op": "setpayload", "before": row["pkt"], "data": row["data"], "kind": kind, "chain": false}})
 	}
 }
 
